@@ -126,6 +126,26 @@ Fixpoint write_fields (wr : ty -> value -> tres prim) (fs : list field) (vs : li
   | _, _ => ill_typed
   end.
 
+Definition is_ref (p : prim) : bool := match p with PRef _ _ => true | _ => false end.
+
+(* object/mod.rs: impl Object for Vec<T>, one element of the array (after fix C18-b): an element that is a reference
+   and whose reader fails with a missing-object error is the null object — kept when T reads Null, left out otherwise *)
+Definition read_elem (rd : prim -> tres value) (p : prim) : tres (list value) :=
+  match rd p with
+  | TOk v => TOk [v]
+  | TErr e =>
+    if vec_missing_element_null && is_ref p && is_missing e then
+      match rd PNull with TOk v => TOk [v] | TErr _ => TOk [] | TPanic s => TPanic s | TFuel => TFuel end
+    else TErr e
+  | TPanic s => TPanic s
+  | TFuel => TFuel
+  end.
+Fixpoint read_elems (rd : prim -> tres value) (l : list prim) : tres (list value) :=
+  match l with
+  | [] => TOk []
+  | p :: t => tdo a <- read_elem rd p; tdo b <- read_elems rd t; TOk (a ++ b)
+  end.
+
 Section Interp.
 Variable SC : schemas.
 Variable H : hand.
@@ -192,7 +212,7 @@ Fixpoint read (fuel : nat) (chain : list (N * N)) (t : ty) (p : prim) {struct fu
       end
     | TVec t0 =>
       match p with
-      | PArr l => tmap VVec (tmapM (read f chain t0) l)
+      | PArr l => tmap VVec (read_elems (read f chain t0) l)
       | PNull => TOk (VVec [])
       | PRef i _ => tdo q <- resolve E i; read f chain t q
       | _ => tdo v <- read f chain t0 p; TOk (VVec [v])
@@ -235,7 +255,9 @@ Fixpoint read (fuel : nat) (chain : list (N * N)) (t : ty) (p : prim) {struct fu
       match get_nenum SC i with
       | None => unmodelled
       | Some e =>
-        match p with
+        (* pdf_derive: impl_object_for_enum — `match p.resolve(resolve)?` (after fix C18-c) *)
+        tdo q <- (match p with PRef r _ => if name_enum_reader_resolves then resolve E r else TOk p | _ => TOk p end);
+        match q with
         | PName n => match find_pair n (ne_pairs e) 0 with
                      | Some k => TOk (VEnum k)
                      | None => if ne_other e then TOk (VEnumOther n) else TErr (EBase c_UnknownVariant)
@@ -247,7 +269,8 @@ Fixpoint read (fuel : nat) (chain : list (N * N)) (t : ty) (p : prim) {struct fu
       match get_ienum SC i with
       | None => unmodelled
       | Some e =>
-        match p with
+        tdo q <- (match p with PRef r _ => if int_enum_reader_resolves then resolve E r else TOk p | _ => TOk p end);
+        match q with
         | PInt z => match find_disc z (ie_variants e) 0 with
                     | Some k => TOk (VEnum k)
                     | None => TErr (EBase c_UnknownVariant)
